@@ -240,6 +240,79 @@ func clientTrial(r *vlib.Run, trial int, rng *rand.Rand) {
 	}
 }
 
+// clientSyncValueTrial: a configuration that contains a sync VALUE of its own
+// (one emission, scheduled before, between or after the data values) with
+// disable_sync off. The sync marker the client owes "after the first emission
+// of every configured value" is then not the only sync response of the stream;
+// what the statement demands is decidable all the same: once every data value
+// has been emitted for the first time, a sync response must follow (at the
+// latest when the finite stream is exhausted), and nothing else may be lost.
+func clientSyncValueTrial(r *vlib.Run, trial int, rng *rand.Rand) {
+	const mode = "clientsyncvalue"
+	nData := 1 + rng.Intn(4)
+	cfg := &fpb.Config{Target: "c20", Seed: 1 + rng.Int63n(1000)}
+	maxTS := int64(0)
+	for i := 0; i < nData; i++ {
+		ts := int64(10 + rng.Intn(40))
+		if ts > maxTS {
+			maxTS = ts
+		}
+		cfg.Values = append(cfg.Values, &fpb.Value{Path: []string{fmt.Sprintf("d%d", i)}, Timestamp: &fpb.Timestamp{Timestamp: ts, DeltaMin: 1, DeltaMax: 3}, Repeat: int32(1 + rng.Intn(3)),
+			Value: &fpb.Value_IntValue{IntValue: &fpb.IntValue{Value: int64(i), Distribution: &fpb.IntValue_Range{Range: &fpb.IntRange{Minimum: 0, Maximum: 100}}}}})
+	}
+	syncTS := []int64{1, 5, int64(10 + rng.Intn(40)), maxTS, maxTS + 7}[rng.Intn(5)]
+	sv := &fpb.Value{Path: []string{"s"}, Timestamp: &fpb.Timestamp{Timestamp: syncTS}, Repeat: 1, Value: &fpb.Value_Sync{Sync: 1}}
+	at := rng.Intn(len(cfg.Values) + 1)
+	cfg.Values = append(cfg.Values[:at], append([]*fpb.Value{sv}, cfg.Values[at:]...)...)
+	pristine := cloneCfg(cfg)
+	r.Eval(1)
+	total := 1
+	for _, v := range pristine.Values {
+		if v.GetSync() == 0 {
+			total += int(v.Repeat)
+		}
+	}
+	resps, ended, mm, inc := runClient(cfg, total+8)
+	if inc != "" {
+		r.Inconclusive(inc)
+		return
+	}
+	extra := map[string]interface{}{"configured_sync_value_timestamp": syncTS, "latest_initial_data_timestamp": maxTS}
+	if mm != nil {
+		r.Violation(mode, trial, mm.sig, mm.what, witness(pristine, extra, nil))
+		return
+	}
+	firstSeen := map[string]bool{}
+	lastFirst, lastSync, nSync, nData2 := -1, -1, 0, 0
+	for i, x := range resps {
+		if isSync(x) {
+			nSync++
+			lastSync = i
+			continue
+		}
+		nData2++
+		if k := respKey(x); !firstSeen[k] {
+			firstSeen[k] = true
+			lastFirst = i
+		}
+	}
+	extra["responses"] = len(resps)
+	extra["sync_responses"] = nSync
+	r.Count("clientsyncvalue_runs", 1)
+	switch {
+	case !ended:
+		r.Inconclusive("clientsyncvalue: the finite stream did not end within its response budget")
+	case len(firstSeen) != nData || nData2 != total-1:
+		r.Violation(mode, trial, "truncated", fmt.Sprintf("fake client with a configured sync value: %d data responses for %d values, expected %d for %d", nData2, len(firstSeen), total-1, nData), witness(pristine, extra, nil))
+	case lastSync < lastFirst:
+		r.Violation(mode, trial, "sync-missing", fmt.Sprintf("fake client with a configured sync value (timestamp %d) and disable_sync off: the last first-emission of a configured value is response %d, but no sync response follows it (%d sync responses, the last one at %d): the sync marker owed after the first emission of every configured value was never sent", syncTS, lastFirst, nSync, lastSync), witness(pristine, extra, nil))
+	default:
+		r.Count("clientsyncvalue_sync_after_all_first_emissions", 1)
+		b, _ := proto.MarshalOptions{Deterministic: true}.Marshal(pristine)
+		r.Distinct(vlib.Hash(mode, b))
+	}
+}
+
 func agentTrial(r *vlib.Run, trial int, rng *rand.Rand) {
 	const mode = "agent"
 	cfg, tag := endpointConfig(rng)
